@@ -37,6 +37,14 @@ def dt_code(dtype: np.dtype) -> str:
     return _NP_TO_DT.get(dtype.type, "other")
 
 
+def arr_code(arr: np.ndarray) -> str:
+    """dtype code of an array; object arrays are told apart by their contents."""
+    code = dt_code(arr.dtype)
+    if code == "object" and not all(isinstance(x, str) for x in arr.reshape(-1)):
+        return "objmixed"
+    return code
+
+
 # --------------------------------------------------------------------------------------- types
 
 def mk_type(j):
@@ -104,6 +112,10 @@ def mk_array(dt: str, shape, pid: int) -> np.ndarray:
         a = np.empty(shape, dtype=object)
         a[...] = f"s{pid}"
         return a
+    if dt == "objmixed":
+        a = np.empty(shape, dtype=object)
+        a[...] = Opaque(pid)
+        return a
     if dt == "other":
         return np.full(shape, pid, dtype="datetime64[s]")
     if dt == "bool":
@@ -159,7 +171,7 @@ def canon_payload(v):
     if v is None:
         return {"p": "none"}
     if isinstance(v, np.ndarray):
-        return {"p": "arr", "dt": dt_code(v.dtype), "shape": list(v.shape), "pid": _pid_of(v)}
+        return {"p": "arr", "dt": arr_code(v), "shape": list(v.shape), "pid": _pid_of(v)}
     if isinstance(v, list):
         return {"p": "list", "xs": [canon_pv(x) for x in v]}
     if isinstance(v, PropValue):
@@ -493,7 +505,7 @@ def result_universe() -> list:
     out = [
         A("i64", [2]), A("i64", [3]), A("i64", [2, 1]), A("i64", []), A("f64", [2]), A("f32", [2]),
         A("f32", [2, 3], 4), A("f32", [5, 3], 4), A("i32", [2]), A("bool", [2], 1),
-        A("str", [2]), A("object", [2]), A("longlong", [2]), A("ulonglong", [2]), A("u64", [2]),
+        A("str", [2]), A("object", [2]), A("objmixed", [2]), A("longlong", [2]), A("ulonglong", [2]), A("u64", [2]),
         A("other", [2]), A("f16", [2]), A("c64", [2]),
         N,
         {"r": "scalar", "dt": "f64", "pid": 3}, {"r": "scalar", "dt": "i64", "pid": 3},
